@@ -18,7 +18,7 @@ fn frame_with(layer: Layer, n: usize, ids: &[u8; 16]) -> AlpideReadoutFrame {
     f
 }
 
-// @harness id=bnd_frame_lanes_ib props=C13,C04 kind=bnd tier=thorough bound=lanes<=4,fatal<=1 fns=AlpideReadoutFrame::check_frame_lanes_valid,validate_inner_lane_groupings stubs=alloc::fmt::format
+// @harness id=bnd_frame_lanes_ib props=C13,C04 kind=bnd tier=manual bound=lanes<=4,fatal<=1 fns=AlpideReadoutFrame::check_frame_lanes_valid,validate_inner_lane_groupings stubs=alloc::fmt::format
 // Inner barrel: 3 lanes forming one of the fixed groups {0,1,2},{3,4,5},{6,7,8} (minus a fatal lane).
 #[kani::proof]
 #[kani::stub(alloc::fmt::format, stub_format_nonempty)]
@@ -53,7 +53,7 @@ fn bnd_frame_lanes_ib() {
     kani::cover!(r.is_ok() && !has_fatal);
 }
 
-// @harness id=bnd_groupings_nopanic props=C04 kind=bnd tier=thorough bound=lanes=0,fatal=1 fns=validate_inner_lane_groupings stubs=alloc::fmt::format
+// @harness id=bnd_groupings_nopanic props=C04 kind=bnd tier=manual bound=lanes=0,fatal=1 fns=validate_inner_lane_groupings stubs=alloc::fmt::format
 // No precondition on the fatal lane number: it is the 5 LSB of a (possibly corrupted) data word id, 0..=31.
 #[kani::proof]
 #[kani::stub(alloc::fmt::format, stub_format_nonempty)]
